@@ -101,7 +101,8 @@ def _lookup_block(name, rng, labels):
     return b
 
 
-LABEL_SETS = [[], ["a"], ["a", "b", "a"], ["", "x", ""], ["Ab", "ab", " ab", "ab "], ["k", "k", "k", "k"], ["€", "e", "€"], ["x", "y", "z", "x", "y"]]
+LABEL_SETS = [[], ["a"], ["a", "b", "a"], ["", "x", ""], ["Ab", "ab", " ab", "ab "], ["k", "k", "k", "k"], ["€", "e", "€"], ["x", "y", "z", "x", "y"],
+              ["C7\x00", "C7", "C7\x00\x00"], ["\x00", ""]]
 
 
 def _foreign_items():
@@ -146,7 +147,7 @@ def _coherence(name, b, labels, case, seed, when=""):
                 fails.append(_f("C18", "C18.label", name, f"{w}b[{key!r}] does not return the first item with that label / wrong KeyError behaviour", case, seed))
             if (key in b) != found:
                 fails.append(_f("C18", "C18.contains", name, f"{w}{key!r} in b is {key in b} but lookup {'succeeds' if found else 'raises KeyError'}", case, seed))
-        for bad in (1.5, None, (1,), b"a", [0]):
+        for bad in (1.5, None, (1,), b"a", [0], slice(None), slice(0, 1)):
             try:
                 b[bad]
                 fails.append(_f("C18", "C18.keytype", name, f"{w}b[{bad!r}] did not raise TypeError", case, seed))
@@ -343,6 +344,50 @@ def check_c16(seed, tier):
                                     if len(now) != len(old_items) or any(a is not c for a, c in zip(now, old_items)):
                                         fails.append(_f("C16", "C16.assign_rollback", name, f"list assignment is not all-or-nothing: block now holds {len(now)} tracks "
                                                         f"(previously {len(old_items)})", case, seed))
+    # what is assigned is built from the block's own list: exactly that selection is installed
+    for name in ("Data3D", "ForceTorque3D"):
+        mkb, mkt, add, fld = mk[name]
+        for how in ("the list itself", "reversed", "generator over it", "filter of it", "slice of it", "chain with a new track"):
+            b = mkb(3, 3)
+            cur = list(getattr(b, fld))
+            extra = mkt(3)
+            n += 1
+            import itertools as _it
+            val, want = {"the list itself": (b.tracks, cur), "reversed": (reversed(b.tracks), cur[::-1]), "generator over it": ((t for t in b.tracks), cur),
+                         "filter of it": (filter(lambda t: t is not cur[1], b.tracks), [cur[0], cur[2]]), "slice of it": (b.tracks[1:], cur[1:]),
+                         "chain with a new track": (_it.chain(b.tracks, [extra]), cur + [extra])}[how]
+            case = dict(block=name, assign=how)
+            try:
+                b.tracks = val
+                now = list(b.tracks)
+                if len(now) != len(want) or any(a is not c for a, c in zip(now, want)):
+                    fails.append(_f("C16", "C16.assign_valid", name, f"assigning {how} did not install exactly that selection ({len(want)} tracks expected, {len(now)} held)", case, seed))
+            except Exception as e:
+                fails.append(_f("C16", "C16.assign_valid", name, f"assigning {how} raised {e!r}", case, seed))
+    # two blocks of different length: what one is given never ends up, unchecked, in the other
+    for name in ("Data3D", "ForceTorque3D"):
+        mkb, mkt, add, fld = mk[name]
+        n += 1
+        a, b = mkb(5, 0), mkb(3, 0)
+        case = dict(block=name, scenario="b.tracks = a.tracks (both empty), then a.add_track")
+        try:
+            b.tracks = a.tracks
+            a.add_track(mkt(5))
+            bad = [t for t in b.tracks if t.nFrames != b.nFrames]
+            if bad:
+                fails.append(_f("C16", "C16.add_invalid", name, f"a block with nFrames={b.nFrames} holds a {bad[0].nFrames}-frame track after an add to the block whose (empty) list it was assigned", case, seed))
+            lst = [mkt(3)]
+            b.tracks = lst
+            lst.append(mkt(7))
+            try:
+                b.tracks = lst
+            except Exception:
+                pass
+            bad = [t for t in b.tracks if t.nFrames != b.nFrames]
+            if bad:
+                fails.append(_f("C16", "C16.assign_rollback", name, "after a refused re-assignment of a list that had grown a wrong-length track the block holds that track", case, seed))
+        except Exception as e:
+            fails.append(_f("C16", "C16.exception", name, f"unexpected {e!r}", case, seed))
     # what is assigned is not even a list: a single track, a number, an iterator that fails half-way
     for name in ("Data3D", "ForceTorque3D"):
         mkb, mkt, add, fld = mk[name]
@@ -460,6 +505,11 @@ def check_c20(seed, tier):
                 raw = real_write(name, src)
                 r1 = real_build(name, io.BytesIO(raw), src)
                 r2 = real_build(name, io.BytesIO(raw), src)
+                junk = [np.full(sz, 12345.0, dtype="<f4") for sz in (1, 2, 3, 4, 6, 8, 12, 16, 24, 64, 250, 1000) for _ in range(4)]
+                del junk                                   # recycled memory now carries 12345.0
+                r2 = real_build(name, io.BytesIO(raw), src)
+                if _snapshot(name, r1) != _snapshot(name, r2):
+                    fails.append(_f("C20", "C20.decode_shared", name, "two decodes of the same bytes differ (the second depends on what an earlier, discarded object left in memory)", case, seed))
                 shared = _shared_mutables(r1, r2)
                 if shared:
                     fails.append(_f("C20", "C20.decode_shared", name, f"two decodes of the same bytes share mutable state: {shared[:3]}", case, seed))
@@ -536,6 +586,24 @@ def check_c20(seed, tier):
                     fails.append(_f("C20", "C20.exception", name, f"unexpected {e!r}", case, seed))
     finally:
         shutil.rmtree(d, ignore_errors=True)
+    # two blocks each given its own list through the bulk setter: independent afterwards
+    for name, attr in (("Data3D", "tracks"), ("ForceTorque3D", "tracks"), ("PlatformsData", "platforms")):
+        mk_, mutate, size = makers[name]
+        n += 1
+        case = dict(block=name, scenario=f"two blocks, each assigned its own list through .{attr}")
+        try:
+            a, b = mk_(), mk_()
+            donor1, donor2 = mk_(), mk_()
+            mutate(donor1); mutate(donor2); mutate(donor2)
+            setattr(a, attr, list(getattr(donor1, attr)))
+            setattr(b, attr, list(getattr(donor2, attr)))
+            if len(getattr(a, attr)) != 1 or len(getattr(b, attr)) != 2:
+                fails.append(_f("C20", "C20.shared", name, f"after assigning 1 item to one block and 2 to another they hold {len(getattr(a, attr))} and {len(getattr(b, attr))}", case, seed))
+            setattr(a, attr, [])
+            if len(getattr(b, attr)) != 2 or size(mk_()) != size(makers[name][0]()) or _shared_mutables(a, b):
+                fails.append(_f("C20", "C20.shared", name, "emptying one block through the setter changed another / a fresh block is not empty / the two share state", case, seed))
+        except Exception as e:
+            fails.append(_f("C20", "C20.exception", name, f"unexpected {e!r}", case, seed))
     # every mutable attribute of two blocks built by the same constructor call is its own object
     for name, (mk_, mutate, size) in makers.items():
         n += 1
